@@ -454,6 +454,32 @@ class Builtins:
                 raise Unsupported("startswith symbolic")
             L = z3.Concat(z3.Re(c), rx.ALL) if name == "startswith" else z3.Concat(rx.ALL, z3.Re(c))
             yield ("val", E.member(recv, L), st); return
+        if isinstance(recv, LRef) and name in ("pop", "append", "insert"):
+            zh = dict(st.zh)
+            n = zh["L_n"][recv.id]; el = zh["L_e"][recv.id]
+            k = z3.Int("k!lm")
+            if name == "pop":
+                if len(pos) > 1 or (pos and conc(pos[0]) not in (0, -1)):
+                    raise Unsupported("pop(%r)" % (pos,))
+                empty = n <= 0
+                if E.feasible(st, empty):
+                    yield ("raise", Exc(IndexError), st.assume(empty))
+                first = bool(pos) and conc(pos[0]) == 0
+                val = recv.mk(el[0] if first else el[n - 1])
+                if first:
+                    zh["L_e"] = z3.Store(zh["L_e"], recv.id, z3.Lambda([k], el[k + 1]))
+                zh["L_n"] = z3.Store(zh["L_n"], recv.id, n - 1)
+                yield ("val", val, st.assume(z3.Not(empty)).with_zh(zh)); return
+            if name == "append":
+                zh["L_e"] = z3.Store(zh["L_e"], recv.id, z3.Store(el, n, E.unwrap_ref(pos[0])))
+                zh["L_n"] = z3.Store(zh["L_n"], recv.id, n + 1)
+                yield ("val", None, st.with_zh(zh)); return
+            if name == "insert":
+                if conc(pos[0]) != 0:
+                    raise Unsupported("insert at %r" % (pos[0],))
+                zh["L_e"] = z3.Store(zh["L_e"], recv.id, z3.Lambda([k], z3.If(k == 0, E.unwrap_ref(pos[1]), el[k - 1])))
+                zh["L_n"] = z3.Store(zh["L_n"], recv.id, n + 1)
+                yield ("val", None, st.with_zh(zh)); return
         if E.is_text(recv) and name == "find":
             c = conc(pos[0])
             if not isinstance(c, str) or len(c) != 1 or len(pos) != 1:
